@@ -4,6 +4,7 @@ import (
 	"fmt"
 	"go/token"
 	"go/types"
+	"strings"
 
 	"golang.org/x/tools/go/ssa"
 )
@@ -13,7 +14,7 @@ func init() {
 		ID:        "C19",
 		Roots:     []string{"asserts"},
 		Technique: "guarded-sink reachability on the SSA CFG of every Backstore.Put implementation (sibling cross-check) and of Database.Add; loop-latch gating of the primary-key loop",
-		Explanation: "Structural necessary conditions for 'stored assertions only move forward in revision': (R1) every implementation of Backstore.Put / memBSNode.put reaches its storage write (map store, atomicWriteEntry) only when there is no current assertion or curRev < rev, with curRev/rev taken from the current and the new assertion, and every implementation is one of the reviewed ones; (R2) the stacked-database case of Database.Add applies the same comparison before Put; (R3) Database.Add reaches Put only when the lookups in the trusted and the predefined stores both reported NotFound and no primary-key value is empty; (R4) the 'current assertion' selectors of both stores replace their candidate only by a strictly higher revision within the format limit.",
+		Explanation: "Structural necessary conditions for 'stored assertions only move forward in revision': (R1) every implementation of Backstore.Put / memBSNode.put reaches its storage write (map store, atomicWriteEntry) only when there is no current assertion or curRev < rev, with curRev/rev taken from the current and the new assertion, and every implementation is one of the reviewed ones; (R2) the stacked-database case of Database.Add applies the same comparison before Put; (R3) Database.Add reaches Put only when the lookups in the trusted and the predefined stores both reported NotFound and no primary-key value is empty; (R4) the 'current assertion' selectors of both stores replace their candidate only by a strictly higher revision within the format limit; (R5) the backstores' index maintenance never appends onto a truncated view of a stored slice while a tail of that slice is kept (an in-place insert that silently overwrites an existing member).",
 		NotDecided: "agreement of the two stores over arbitrary histories; sequence-number searches; the on-disk path encoding.",
 		Run:        runC19,
 	})
@@ -156,6 +157,65 @@ func runC19(c *Ctx) {
 			c.ThroughLoop(fmt.Sprintf("asserts.(*Database).Add#put-after-primary-key-loop#%d", i+1), rl, FlowPoint{Instr: pc})
 		}
 	}
+
+	c.Rule("C19-R5", "G", "index maintenance in the backstores never appends onto a truncated view of a stored slice while a tail of the same slice is kept for later (in-place insert that overwrites existing members)", 1)
+	nApp := 0
+	for _, fn := range P.FuncsIn("asserts") {
+		file := P.Fset.Position(fn.Pos()).Filename
+		if !strings.HasSuffix(file, "backstore.go") {
+			continue
+		}
+		for _, b := range fn.Blocks {
+			for _, in := range b.Instrs {
+				ci, ok := in.(*ssa.Call)
+				if !ok {
+					continue
+				}
+				bi, ok := ci.Call.Value.(*ssa.Builtin)
+				if !ok || bi.Name() != "append" {
+					continue
+				}
+				nApp++
+				head, ok := ci.Call.Args[0].(*ssa.Slice)
+				if !ok || head.High == nil {
+					continue
+				}
+				// a truncated view X[:h]; is a tail X[l:] of the same stored slice captured in this function?
+				baseOf := func(v ssa.Value) (ssa.Value, *types.Var) {
+					bs, f, ok := FieldLoad(v)
+					if !ok {
+						return nil, nil
+					}
+					return Strip(bs), f
+				}
+				hb, hf := baseOf(head.X)
+				if hf == nil {
+					continue
+				}
+				// deletion idiom append(X[:i], X[i+1:]...) shifts left and is safe
+				if tail, ok := ci.Call.Args[1].(*ssa.Slice); ok && tail.Low != nil {
+					if tb, tf := baseOf(tail.X); tf == hf && tb == hb {
+						if bo, ok := tail.Low.(*ssa.BinOp); ok && bo.Op == token.ADD && bo.X == head.High {
+							continue
+						}
+					}
+				}
+				hazard := ""
+				for _, b2 := range fn.Blocks {
+					for _, in2 := range b2.Instrs {
+						if tl, ok := in2.(*ssa.Slice); ok && tl.Low != nil && tl != head {
+							if tb, tf := baseOf(tl.X); tf == hf && tb == hb {
+								hazard = P.Pos(tl.Pos())
+							}
+						}
+					}
+				}
+				c.touch(fn)
+				c.Check(hazard == "", fmt.Sprintf("%s#append-onto-truncated-view#%d", SSAFuncName(fn), nApp), ci.Pos(), "no tail of the same slice is kept", fmt.Sprintf("append(%s[:i], ...) writes into the backing array of the stored slice while its tail (taken at %s) is still to be used: the first kept element is overwritten, an existing member drops out of the index", hf.Name(), hazard))
+			}
+		}
+	}
+	c.Holds("asserts#backstore-appends", token.NoPos, fmt.Sprintf("%d append calls examined in the backstore files", nApp))
 
 	c.Rule("C19-R4", "G", "current-assertion selectors replace their candidate only by a strictly higher revision within maxFormat", 2)
 	// memBSLeaf.cur: the value returned is nil or a loop element admitted by the gates
